@@ -1,0 +1,64 @@
+//go:build verif
+
+// Machine-checked contracts for package hcl (see /verif/DESIGN.md). This file
+// contains comments only; it is compiled only with the "verif" build tag and
+// changes nothing in the package.
+
+package hcl
+
+// verif:unit U1 props=C14,C15
+
+// verif:pred wfRange(r Range) = r.Start.Byte <= r.End.Byte
+// verif:pred inBounds(r Range, n int) = 0 <= r.Start.Byte && r.Start.Byte <= r.End.Byte && r.End.Byte <= n
+
+// verif:func RangeBetween
+//@ pure
+//@ ensures fields: ret.Filename == start.Filename && ret.Start == start.Start && ret.End == end.End
+//@ ensures inbounds: forall n int :: inBounds(start, n) && inBounds(end, n) && start.Start.Byte <= end.End.Byte ==> inBounds(ret, n)
+
+// verif:func RangeOver
+//@ pure
+//@ ensures emptyA: a.Start.Byte == a.End.Byte ==> ret == b
+//@ ensures emptyB: a.Start.Byte != a.End.Byte && b.Start.Byte == b.End.Byte ==> ret == a
+//@ ensures cover: a.Start.Byte != a.End.Byte && b.Start.Byte != b.End.Byte ==> ret.Filename == a.Filename && (ret.Start == a.Start || ret.Start == b.Start) && (ret.End == a.End || ret.End == b.End) && ret.Start.Byte <= a.Start.Byte && ret.Start.Byte <= b.Start.Byte && ret.End.Byte >= a.End.Byte && ret.End.Byte >= b.End.Byte
+//@ ensures inbounds: forall n int :: inBounds(a, n) && inBounds(b, n) ==> inBounds(ret, n)
+
+// verif:func (Range).ContainsOffset
+//@ pure
+//@ ensures ret == (r.Start.Byte <= offset && offset < r.End.Byte)
+
+// verif:func (Range).ContainsPos
+//@ pure
+//@ ensures ret == (r.Start.Byte <= pos.Byte && pos.Byte < r.End.Byte)
+
+// verif:func (Range).Empty
+//@ pure
+//@ ensures ret == (r.Start.Byte == r.End.Byte)
+
+// verif:func (Range).CanSliceBytes
+//@ pure
+//@ ensures ret == inBounds(r, len(b))
+
+// verif:func (Range).SliceBytes
+//@ pure
+//@ ensures sub: arr(ret) == arr(b) && off(b) <= off(ret) && off(ret) + len(ret) <= off(b) + len(b)
+//@ ensures exact: inBounds(r, len(b)) ==> ret === b[r.Start.Byte:r.End.Byte]
+
+// verif:func (Range).Overlaps
+//@ pure
+//@ ensures exact: ret == (r.Filename == other.Filename && r.Start.Byte != r.End.Byte && other.Start.Byte != other.End.Byte && ((r.Start.Byte <= other.Start.Byte && other.Start.Byte < r.End.Byte) || (r.Start.Byte <= other.End.Byte && other.End.Byte < r.End.Byte) || (other.Start.Byte <= r.Start.Byte && r.Start.Byte < other.End.Byte) || (other.Start.Byte <= r.End.Byte && r.End.Byte < other.End.Byte)))
+//@ ensures doc: wfRange(r) && wfRange(other) ==> ret == (r.Filename == other.Filename && r.Start.Byte < other.End.Byte && other.Start.Byte < r.End.Byte && r.Start.Byte != r.End.Byte && other.Start.Byte != other.End.Byte)
+
+// verif:func (Range).Overlap
+//@ requires wfRange(r) && wfRange(other)
+//@ pure
+//@ ensures within: ret.Filename == r.Filename && r.Start.Byte <= ret.Start.Byte && ret.Start.Byte <= ret.End.Byte && ret.End.Byte <= r.End.Byte
+//@ ensures both: ret.Start.Byte != ret.End.Byte ==> other.Start.Byte <= ret.Start.Byte && ret.End.Byte <= other.End.Byte && r.Filename == other.Filename
+//@ ensures maximal: ret.Start.Byte != ret.End.Byte ==> (ret.Start == r.Start || ret.Start == other.Start) && (ret.End == r.End || ret.End == other.End)
+
+// verif:func (Range).PartitionAround
+//@ requires wfRange(r) && wfRange(other)
+//@ pure
+//@ ensures none: overlap.Start.Byte == overlap.End.Byte ==> before == overlap && after == overlap
+//@ ensures tile: overlap.Start.Byte != overlap.End.Byte ==> before.Start == r.Start && before.End == overlap.Start && after.Start == overlap.End && after.End == r.End && before.Filename == r.Filename && after.Filename == r.Filename
+//@ ensures order: overlap.Start.Byte != overlap.End.Byte ==> r.Start.Byte <= overlap.Start.Byte && overlap.End.Byte <= r.End.Byte
